@@ -205,7 +205,7 @@ impl ConditionEvaluator {
                 }
                 for (field, values) in &str_fields {
                     if let Some(value) = values.get_str_at(i) {
-                        builder.add_field(field, value);
+                        builder.add_field_str(field, value);
                     } else {
                         builder.add_field_null(field);
                     }
